@@ -252,12 +252,22 @@ pub enum Op {
     JumpIfNotNullish { cond: Register, target: JumpTarget },
 
     /// Break to target (runs finally blocks first)
-    /// try_depth is the try stack depth at the target loop
-    Break { target: JumpTarget, try_depth: u8 },
+    /// try_depth is the try stack depth at the target loop,
+    /// scope_depth the block-scope depth (PushScope nesting) at the target:
+    /// the scopes of the blocks being left are popped on the way.
+    Break {
+        target: JumpTarget,
+        try_depth: u8,
+        scope_depth: u8,
+    },
 
     /// Continue to target (runs finally blocks first)
-    /// try_depth is the try stack depth at the target loop
-    Continue { target: JumpTarget, try_depth: u8 },
+    /// try_depth / scope_depth as for Break
+    Continue {
+        target: JumpTarget,
+        try_depth: u8,
+        scope_depth: u8,
+    },
 
     // ═══════════════════════════════════════════════════════════════════════════════
     // Variable Access
